@@ -5,7 +5,9 @@ accepts (``vfpy.gen_proto`` extended by ``vfpy.gen_proto_c02``: every feature to
 IR versions 3..13; external-tensor locations in non-normalised spellings; value names that repeat or spell out names of another scope - a function's value,
 ``{domain}::{function}/{value}`` - and values described by more than one entry where one entry says
 less than the other - an ``output``/``input`` entry without a type for a value typed by its
-initializer or by a value_info entry), push it through the *real* deserializer and serializer by one of the public entry points
+initializer or by a value_info entry; carriers of every kind built from their required fields plus at most ONE optional
+field - a value_info entry of an existing value that has only a doc string, only metadata or only a type, a type with only a
+denotation, an unnamed scalar tensor, a graph without nodes ...), push it through the *real* deserializer and serializer by one of the public entry points
 
   * ``ir.from_proto`` / ``ir.to_proto``
   * ``ir.serde.deserialize_X`` / ``serialize_X`` and ``serialize_X_into(fresh proto)``
@@ -64,13 +66,24 @@ RULE = (
     "whose output entry may be untyped, untyped input entries of initializers that are inputs (IR >= 4), "
     "external-tensor locations spelled outside any normal form (leading './', doubled separator, '.' segment, inner "
     "'sub/..' detour, upper/mixed case, blanks inside/around, composed vs decomposed non-ASCII, backslash, "
-    "percent-escape look-alikes, several directory levels; always relative and inside the model directory)"
+    "percent-escape look-alikes, several directory levels; always relative and inside the model directory); "
+    "sparse_carriers (35% of cases; per-site probability 0.3/0.6/1.0 drawn per case): a model / graph / function / "
+    "node / tensor / attribute / value_info / type built from its required fields plus AT MOST ONE optional field "
+    "(value_info-list entries naming an existing node output or function input with only a doc string, only "
+    "metadata or only a type; name-only graph inputs/outputs; a type with only a denotation, only a rank-0 shape or "
+    "one dimension that has only a denotation; a wrapper type with the denotation on one level only; an unnamed "
+    "scalar tensor; zero-valued attributes; a node with only an operator and an output; a graph without nodes; "
+    "a model with only a graph), nested sparse carriers going through the same per-site draw"
 )
 ASSUMPTIONS = [
     "protobuf reflection (descriptors, HasField, ListFields semantics) and onnx's generated message classes are trusted",
     "onnx.save/onnx.load are trusted for the file entry point; a case whose proto does not survive them alone is report-only",
     "well-formedness is by construction in gen_proto (names unique per model, topological order, elem_type always set, "
-    "payload sizes implied by dims, fields used only from the IR version that introduced them, value_info entries carry a type)",
+    "payload sizes implied by dims, fields used only from the IR version that introduced them, value_info entries carry a type "
+    "unless built by gen_proto_c02's sparse_carriers, where an entry of a value_info list carries exactly one of type / doc "
+    "string / metadata: never the name alone, which says nothing about the value and on which the statement is silent)",
+    "a TypeProto with a denotation but no value case (rejected by onnx.checker; the IR has no type to attach the denotation "
+    "to) is generated stand-alone only and is report-only (report_only_type_without_value_case)",
     "a change of ORDER only in quantization_annotation, quant_parameter_tensor_names or external_data (keyed lists the "
     "statement is silent on) is report-only; losing, adding, duplicating or altering an entry in them is judged",
     "canon N3/N4 interpretation: added value-info for an initializer must be the tensor's own elem type and dims; "
@@ -108,7 +121,17 @@ KEY_FEATURES = (
     "alias_names:bare", "alias_names:convention", "alias_names:near_miss", "overlap_untyped_output",
     "overlap_output_value_info:untyped_output", "overlap_untyped_init_input",
     "location_spelling",
-) + tuple(f"location_spelling:{s}" for s in gx.LOCATION_STYLES)
+) + tuple(f"location_spelling:{s}" for s in gx.LOCATION_STYLES) + (
+    # carriers that say almost nothing: the deciding combinations must have been reached
+    "sparse_carriers", "sparse:model", "sparse:graph", "sparse:function", "sparse:node", "sparse:tensor",
+    "sparse:attribute", "sparse:type", "sparse:value_info",
+    "sparse:value_info_entry:doc_string", "sparse:value_info_entry:metadata_props", "sparse:value_info_entry:type",
+    "sparse:value_info_io:doc_string", "sparse:value_info_io:metadata_props", "sparse:value_info_io:nothing",
+    "sparse:type:denotation", "sparse:type:dim_denotation", "sparse:type_wrapper:denotation",
+    "sparse:type_wrapper:element_denotation", "sparse:tensor:nothing", "sparse:tensor:dims",
+    "sparse:tensor:doc_string", "sparse:tensor:metadata_props", "sparse:graph_body:no_node",
+    "sparse:graph:value_info", "sparse:function:value_info",
+)
 MAX_DIFFS_PER_TRIP = 8
 
 
@@ -124,6 +147,8 @@ def plan(tier: str) -> dict:
         floors[f"kind:{kind}"] = int((60 if quick else 2500) * w / 0.05) // 4
     for f in KEY_FEATURES:
         floors[f"feat:{f}"] = 40 if quick else 1500
+        if f.startswith("sparse:") and f.count(":") == 2:  # one kept field of one carrier kind: ~1% of cases each
+            floors[f"feat:{f}"] = 15 if quick else 500
     for v in range(3, 14):
         floors[f"ir_version:{v}"] = 20 if quick else 800
     return {
@@ -351,8 +376,18 @@ def _candidates(msg, path=()):
     """(path, field, index|None): removable repeated-message elements and clearable doc strings,
     outermost first."""
     later = []
+    # a value_info entry is never reduced to its name alone: a name-only entry says nothing about the
+    # value, is not generated and is outside what is judged - a witness must stay inside
+    last_word = None
+    if msg.DESCRIPTOR.name == "ValueInfoProto":
+        said = [n for n in ("type", "doc_string", "metadata_props")
+                if (msg.HasField(n) if n == "type" else len(getattr(msg, n)))]
+        if len(said) == 1 and (said[0] != "metadata_props" or len(msg.metadata_props) == 1):
+            last_word = said[0]
     for fd, value in msg.ListFields():
         repeated = cp._is_repeated(fd)
+        if fd.name == last_word and fd.name != "type":
+            continue
         if fd.message_type is not None:
             if repeated:
                 for i in range(len(value) - 1, -1, -1):
@@ -455,6 +490,7 @@ def _run(ctx, tmpdir: str) -> None:
         rng = ctx.rng(case)
         used: set[str] = set()
         carriers: set[str] = set()
+        report_only: str | None = None
         if case < corpus_cases and corpus:
             # quick: a seed-dependent sample; thorough (corpus_cases >= len): every model once
             idx = case if corpus_cases >= len(corpus) else rng.randrange(len(corpus))
@@ -471,6 +507,7 @@ def _run(ctx, tmpdir: str) -> None:
             gen = gx.ProtoGenC02(rng)
             proto = gen.build(kind)
             used, carriers = gen.used, gen.carriers
+            report_only = gen.report_only
             origin = f"generated ir_version={gen.ir_version}"
             r = rng.random()
             if kind == "ModelProto" and r < 0.2:
@@ -502,6 +539,10 @@ def _run(ctx, tmpdir: str) -> None:
             if nontrivial:
                 ctx.sample({"case": case, "kind": kind, "api": api, "origin": origin, "bytes": proto.ByteSize(),
                             "features": sorted(used), "carriers": sorted(carriers)})
+            continue
+        if report_only:
+            # a construct the statement is silent on (see gen_proto_c02): observed, never judged
+            ctx.count(f"report_only_{report_only}")
             continue
         for sig, text in events:
             witness = proto
